@@ -63,6 +63,8 @@ func main() {
 	ctx := core.NewCtx(id, tier, core.SeedFromEnv())
 	ctx.Replay = replay
 	ctx.Selftest = selftest
+	// stale replay files of an earlier run go away now - unless this run is to re-judge one of them
+	_ = ctx.ReplayDir()
 	defer func() {
 		if e := recover(); e != nil {
 			core.Machinery("panic in check %s: %v", id, e)
